@@ -176,6 +176,14 @@ def make_history(r, nsteps=None):
                 again = dict(op)
                 again['inject'] = None
                 ops.append(again)
+        elif c < 0.82 and ops and ops[-1]['op'] == 'assemble':
+            # the caller does what it likes with what it got back: scribbles over the returned buffer and dictionaries,
+            # then (often) makes the very same call again
+            ops.append({'op': 'mutate'})
+            if r.random() < 0.7:
+                again = dict(ops[-2])
+                again['inject'] = None
+                ops.append(again)
         elif c < 0.9:
             incl = sorted(set(i['target'] for i in tree['includes']))
             if incl and r.random() < 0.2:
@@ -348,6 +356,7 @@ def run_history(scen):
     shared_inc_copy = list(shared_inc)
     tables0 = module_tables()
     handed = []          # (step, kind, obj, copy)
+    last_objs = None
     steps = []
     inv = []
     for si, op in enumerate(scen['ops']):
@@ -355,6 +364,30 @@ def run_history(scen):
             old = (fs.files.get(op['path']) or b'').decode('utf-8')
             fs.put(op['path'], apply_edit(old, op['edit'], op['arg']))
             log.add('write', op['path'], op['edit'])
+            steps.append(None)
+            continue
+        if op['op'] == 'mutate':
+            if last_objs is not None:
+                raw, c_o, l_o = last_objs
+                try:
+                    if raw is not None and len(raw):
+                        raw[0] = (raw[0] + 1) % 256
+                        raw.extend(b'\xee\xee')
+                except TypeError:
+                    pass                # an immutable bytes object: nothing to scribble on
+                if l_o is not None:
+                    l_o.clear()
+                    l_o['scribbled'] = 4
+                if c_o is not None:
+                    c_o['SCRIBBLED'] = 1
+                    for k in list(c_o)[:1]:
+                        c_o[k] = 999
+                # the harness's own copies follow the caller's edits (only edits made by LATER calls are violations)
+                for h in handed:
+                    if h[2] is l_o or h[2] is c_o:
+                        h[3].clear()
+                        h[3].update(h[2])
+            log.add('mutate')
             steps.append(None)
             continue
         if op['op'] == 'rm':
@@ -393,6 +426,7 @@ def run_history(scen):
             fs.files = before_files
         steps.append(rec)
         c_obj, l_obj = out.get('objs', (None, None))
+        last_objs = (out.get('raw'), c_obj, l_obj) if out['ok'] else None
         if out['ok']:
             for kind, o in (('constants', c_obj), ('labels', l_obj)):
                 if o is not None:
@@ -469,6 +503,9 @@ def run_scenario(scen, keep_events=False):
             files[op['path']] = apply_edit(files.get(op['path'], ''), op['edit'], op['arg'])
             prev_class = 'write'
             sigparts.append('w')
+            continue
+        if op['op'] == 'mutate':
+            sigparts.append('mu')
             continue
         if op['op'] == 'rm':
             files.pop(op['path'], None)
